@@ -166,6 +166,14 @@ func runRelay(r *core.Run) {
 			continue // not accepted: nothing to relay
 		}
 		snap := deepCopy(pdu)
+		if (i+int(r.Cfg.Index))%3 == 1 {
+			// a relay that logs what it received before it forwards it
+			if p := r.Call(site+".String", func() { _ = pdu.String() }); p != nil {
+				r.Fail("C11", "panic", p.Frame, "String/"+p.Kind, "String() of an accepted %s image of %s panicked: %s", it.kind, site, p.Value)
+				continue
+			}
+			r.Probe("relay_logs_before_forwarding")
+		}
 		var out []byte
 		if p := r.Call(site+".IEncode", func() { out, err = pdu.IEncode() }); p != nil {
 			r.Fail("C11", "panic", p.Frame, "reencode/"+p.Kind, "re-encoding an accepted %s image of %s panicked: %s", it.kind, site, p.Value)
@@ -177,7 +185,7 @@ func runRelay(r *core.Run) {
 		}
 		// encoding must not disturb the decoded PDU beyond the documented normalisation
 		if d := goDiff(normalised(snap, site), normalised(pdu, site)); len(d) > 0 {
-			r.Fail("C11", "encode-mutates", site, "field="+d[0], "IEncode changed field %s of its receiver", d[0])
+			r.Fail("C11", "encode-mutates", site, "field="+d[0], "logging (String) and re-encoding (IEncode) are observers, yet field %s of the decoded value changed", d[0])
 		}
 		if it.canonical {
 			if !sameImage(it.pd, f, out) {
